@@ -3,6 +3,7 @@ import PyamgV.Proofs.C01Solve
 import PyamgV.Proofs.C01Store
 import PyamgV.Proofs.ExtSolvePathEx
 import PyamgV.Proofs.ExtSolvePathK
+import PyamgV.Proofs.ExtPy2Loop
 
 /-! # C01 — stand-alone multigrid solve: termination, tolerance and truthful reporting
 
@@ -88,5 +89,21 @@ restate example_solvePy_on_cycM_energy := PyamgV.SolvePath.Ex.example_solve_ener
 restate example_solvePy_on_kernel_cycle_energy := PyamgV.SolvePath.example_solvePyK_energy
 /-- (E17) a concrete run with the exact residual test, all options on, evaluated by the kernel -/
 restate example_solvePy_on_cycM_run := PyamgV.SolvePath.Ex.example_run
+
+/-! ## the loop as the SOURCE has it (extension E42, Proofs/ExtPy2Loop.lean)
+
+`Generated.PyLogic2.multilevel_solve` is translated from the working tree's `MultilevelSolver.solve` on every run
+(harness/py2lean2.py; `while True:` with fuel, numerical work abstracted).  `ExtPy2Loop.run sc` runs it without `accel`
+on a scenario of `C01.replayPy` (norms of the iterates as the script of `np.linalg.norm`), `ExtPy2Loop.decode` reads
+the caller's observables off result + trace.  The driver runs the generated definition (`ext_py2_call`) against the
+real method on generated scenarios. -/
+
+/-- **Generated.solve refines C01.solvePy** (its replay instance), grid 1: iteration limit x tolerance x `‖b‖` x norm
+sequence x one-level / multilevel -/
+restate generated_loop_refines_solvePy := PyamgV.ExtPy2Loop.loop_refines_solvePy
+/-- grid 2: all combinations of `x0`, `residuals`, `callback`, `return_info` -/
+restate generated_options_refine_solvePy := PyamgV.ExtPy2Loop.options_refine_solvePy
+/-- non-vacuity of the grids -/
+restate generated_loop_grid_covers := PyamgV.ExtPy2Loop.grid_covers
 
 end PyamgV.Props.C01
